@@ -1,7 +1,7 @@
 (* PropC02.v — C02: a crash at any instant recovers to an atomic, consistent prefix (stream level: WAL = zero-prefilled stream, crash = any byte prefix of the entry in flight; every block size and checksum function). crc_collision P = a frame and its own zero-completed prefix have the same checksum.
    Statements only; each theorem is closed by `exact <lemma>`; proofs live in the imported files. *)
 From Coq Require Import Lia NArith List.
-From MRL Require Import Bytes Params Names Frame Record Mem Spec Rolling Log Driver Hist SpecRefine StreamProofs TornProofs GhostLog RestartInv RestartFinal OpenReplay TornFile CrashTrace NzcVacuous CrashAtomic.
+From MRL Require Import Bytes Params Names Frame Record Mem Spec Rolling Log Driver Hist SpecRefine StreamProofs TornProofs GhostLog RestartInv RestartFinal OpenReplay TornFile CrashTrace NzcVacuous CrashAtomic JInv JunkStream CrashRecovered CrashRecovered2 CrashRecovered3 CrashHistories.
 
 (* THE PROPERTY, end to end: from any state satisfying the global invariant, under a flush-per-operation policy, for EVERY crash image of a call (cut between any two file-system effects - file creation, set_len, flush, sync, unlink - or after any number of bytes of any write): open succeeds and the recovered abstract state is that of all completed calls, or that plus the in-flight call (the model never shows a partially applied truncate/delete) *)
 Theorem C02_crash_atomic :
@@ -386,4 +386,233 @@ Theorem C02_unbounded_hypothesis_inconsistent :
     takeN n fp ++ zerosN (lenN fp - n) = fp) -> False.
 Proof. exact nzc_inconsistent. Qed.
 Print Assumptions C02_unbounded_hypothesis_inconsistent.
+
+(* "THE RECOVERED LOG IS FULLY USABLE", end to end: for every crash image of a call (from the global invariant, Always policy) open succeeds, the state is the one before or after the call, EVERY continuation history then behaves exactly as the specification from that state, and a clean restart after it restores the state - although the files now hold the junk a torn write left behind (junk-tolerant invariant InvJ). Restriction (explicit premises): the interrupted call neither rolls over nor ends in the last block of its file *)
+Theorem C02_crash_recovered_usable :
+    forall P : params,
+    7 < BS P ->
+    BS P <= 65542 ->
+    1 <= NB P ->
+    (forall (t : byte) (p : bytes), crcf P t p < 2 ^ 32) ->
+    L_GC P = false ->
+    L_IO P = false ->
+    L_SHORT P = false ->
+    no_zero_collision P ->
+    forall (st : state) (G : ghost) (a : bool) (o : op) (tick : bool) (st' : state) (out : outcome),
+    crash_setting P st G a o tick st' out ->
+    exists evs : list event,
+    c_ev (w_ctx (s_wr st')) = rev evs ++ c_ev (w_ctx (s_wr st)) /\
+    (forall (cut k : N) (pol : policy) (hint : list bytes),
+    let img := fold_left apply_event (crash_events evs cut k) (c_fs (w_ctx (s_wr st))) in
+    exists st_r : state,
+    open P img None pol hint = OpenOk st_r /\
+    ((forall q : bytes, s_get (abs_qs (s_qs st_r)) q = s_get (abs_qs (s_qs st)) q) \/
+    (forall q : bytes, s_get (abs_qs (s_qs st_r)) q = s_get (abs_qs (s_qs st')) q)) /\
+    (forall h2 : list hop,
+    hist_ok P st_r h2 ->
+    exists (st2 : state) (outs2 : list outcome) (m2 : smap) (souts2 : list sout),
+    hrun P st_r h2 = Some (st2, outs2) /\
+    Forall no_io outs2 /\
+    s_run (abs_qs (s_qs st_r)) (map sop_of (hcalls h2)) = (m2, souts2) /\
+    (forall q : bytes, s_get m2 q = s_get (abs_qs (s_qs st2)) q) /\
+    map out_logical outs2 = map Some souts2) /\
+    (forall (h2 : list hop) (st2 : state) (outs2 : list outcome),
+    hrun P st_r h2 = Some (st2, outs2) ->
+    hist_ok P st_r h2 ->
+    restart_bound P st2 ->
+    forall (pol2 : policy) (hint2 : list bytes),
+    exists st3 : state,
+    restart P st2 pol2 hint2 = OpenOk st3 /\
+    (forall q : bytes, s_get (abs_qs (s_qs st3)) q = s_get (abs_qs (s_qs st2)) q))).
+Proof. exact crash_recovered_usable. Qed.
+Print Assumptions C02_crash_recovered_usable.
+
+(* the restart identity alone, for any state recovered from such an image *)
+Theorem C02_crash_recovered_restart :
+    forall P : params,
+    7 < BS P ->
+    BS P <= 65542 ->
+    1 <= NB P ->
+    (forall (t : byte) (p : bytes), crcf P t p < 2 ^ 32) ->
+    L_GC P = false ->
+    L_IO P = false ->
+    L_SHORT P = false ->
+    no_zero_collision P ->
+    forall (st : state) (G : ghost) (a : bool) (o : op) (tick : bool) (st' : state) (out : outcome),
+    crash_setting P st G a o tick st' out ->
+    exists evs : list event,
+    c_ev (w_ctx (s_wr st')) = rev evs ++ c_ev (w_ctx (s_wr st)) /\
+    (forall (cut k : N) (pol : policy) (hint : list bytes) (st_r : state),
+    open P (fold_left apply_event (crash_events evs cut k) (c_fs (w_ctx (s_wr st)))) None pol hint =
+    OpenOk st_r ->
+    forall (h2 : list hop) (st2 : state) (outs2 : list outcome),
+    hrun P st_r h2 = Some (st2, outs2) ->
+    hist_ok P st_r h2 ->
+    restart_bound P st2 ->
+    forall (pol2 : policy) (hint2 : list bytes),
+    exists st3 : state,
+    restart P st2 pol2 hint2 = OpenOk st3 /\
+    (forall q : bytes, s_get (abs_qs (s_qs st3)) q = s_get (abs_qs (s_qs st2)) q)).
+Proof. exact crash_recovered_restart. Qed.
+Print Assumptions C02_crash_recovered_restart.
+
+(* a SECOND crash, during any later call of any continuation: recovers to the state before or after that call, and the result is usable again (jstate is closed under calls, restarts and crash recoveries) *)
+Theorem C02_crash_recovered_crash :
+    forall P : params,
+    7 < BS P ->
+    BS P <= 65542 ->
+    1 <= NB P ->
+    (forall (t : byte) (p : bytes), crcf P t p < 2 ^ 32) ->
+    L_GC P = false ->
+    L_IO P = false ->
+    L_SHORT P = false ->
+    no_zero_collision P ->
+    forall (st : state) (G : ghost) (a : bool) (o : op) (tick : bool) (st' : state) (out : outcome),
+    crash_setting P st G a o tick st' out ->
+    exists evs : list event,
+    c_ev (w_ctx (s_wr st')) = rev evs ++ c_ev (w_ctx (s_wr st)) /\
+    (forall (cut k : N) (a2 : bool) (hint : list bytes) (st_r : state),
+    open P (fold_left apply_event (crash_events evs cut k) (c_fs (w_ctx (s_wr st)))) None
+    (PAlways a2) hint = OpenOk st_r ->
+    forall (h2 : list hop) (st2 : state) (outs2 : list outcome),
+    hist_ok P st_r h2 ->
+    always_hist a2 h2 ->
+    hrun P st_r h2 = Some (st2, outs2) ->
+    forall (o2 : op) (tick2 : bool) (st2' : state) (out2 : outcome),
+    op_wf_strict (s_qs st2) o2 ->
+    crash_phys_bound P (s_wr st2) (map snd (step_log P st2 o2)) (abs_qs (s_qs st2)) ->
+    crash_phys_bound P (s_wr st2) (map snd (step_log P st2 o2)) (abs_qs (s_qs st2')) ->
+    step P st2 o2 tick2 = (st2', out2) ->
+    w_file (s_wr st2') = w_file (s_wr st2) ->
+    w_off (s_wr st2') + BS P <= FILE_BYTES P ->
+    exists evs2 : list event,
+    c_ev (w_ctx (s_wr st2')) = rev evs2 ++ c_ev (w_ctx (s_wr st2)) /\
+    (forall (cut2 k2 : N) (pol3 : policy) (hint3 : list bytes),
+    exists st_r2 : state,
+    open P (fold_left apply_event (crash_events evs2 cut2 k2) (c_fs (w_ctx (s_wr st2)))) None pol3
+    hint3 = OpenOk st_r2 /\
+    ((forall q : bytes, s_get (abs_qs (s_qs st_r2)) q = s_get (abs_qs (s_qs st2)) q) \/
+    (forall q : bytes, s_get (abs_qs (s_qs st_r2)) q = s_get (abs_qs (s_qs st2')) q)) /\
+    jstate P st_r2)).
+Proof. exact crash_recovered_crash. Qed.
+Print Assumptions C02_crash_recovered_crash.
+
+(* a second crash DURING THE RECOVERY'S OWN EFFECTS (set_len of the last file, position entries of the recovery-time GC, unlinks, syncs): reopening any crash image of the recovery returns the same abstract state, usable again *)
+Theorem C02_crash_recovered_self :
+    forall P : params,
+    7 < BS P ->
+    BS P <= 65542 ->
+    1 <= NB P ->
+    (forall (t : byte) (p : bytes), crcf P t p < 2 ^ 32) ->
+    L_GC P = false ->
+    L_IO P = false ->
+    L_SHORT P = false ->
+    no_zero_collision P ->
+    forall (st : state) (G : ghost) (a : bool) (o : op) (tick : bool) (st' : state) (out : outcome),
+    crash_setting P st G a o tick st' out ->
+    crash_phys_bound P (s_wr st) (map snd (step_log P st o)) (abs_qs (s_qs st)) ->
+    crash_phys_bound P (s_wr st) (map snd (step_log P st o)) (abs_qs (s_qs st')) ->
+    exists evs : list event,
+    c_ev (w_ctx (s_wr st')) = rev evs ++ c_ev (w_ctx (s_wr st)) /\
+    (forall (cut k : N) (pol : policy) (hint : list bytes) (st_r : state),
+    let img := fold_left apply_event (crash_events evs cut k) (c_fs (w_ctx (s_wr st))) in
+    open P img None pol hint = OpenOk st_r ->
+    w_file (s_wr st_r) = w_file (s_wr st) ->
+    w_off (s_wr st_r) + BS P <= FILE_BYTES P ->
+    JRecoverSelf.rec_bound P st_r ->
+    forall (cut2 k2 : N) (pol3 : policy) (hint3 : list bytes),
+    exists st_r2 : state,
+    open P (fold_left apply_event (crash_events (rev (c_ev (w_ctx (s_wr st_r)))) cut2 k2) img) None
+    pol3 hint3 = OpenOk st_r2 /\
+    (forall q : bytes, s_get (abs_qs (s_qs st_r2)) q = s_get (abs_qs (s_qs st_r)) q) /\
+    jstate P st_r2).
+Proof. exact crash_recovered_self. Qed.
+Print Assumptions C02_crash_recovered_self.
+
+(* capstone: histories made of calls, clean restarts and crashes (each followed by its recovery) anywhere: the run succeeds and the final state is the specification state in which every crashed call was applied or not *)
+Theorem C02_crash_histories :
+    forall P : params,
+    7 < BS P ->
+    BS P <= 65542 ->
+    1 <= NB P ->
+    (forall (t : byte) (p : bytes), crcf P t p < 2 ^ 32) ->
+    L_GC P = false ->
+    L_IO P = false ->
+    L_SHORT P = false ->
+    no_zero_collision P ->
+    forall (h : list chop) (st : state),
+    jstate P st ->
+    chist_ok P st h ->
+    exists (st' : state) (m' : smap),
+    crun P st h = Some st' /\
+    jstate P st' /\
+    chist_spec (abs_qs (s_qs st)) h m' /\ (forall q : bytes, s_get m' q = s_get (abs_qs (s_qs st')) q).
+Proof. exact crash_histories. Qed.
+Print Assumptions C02_crash_histories.
+
+(* the same from a fresh directory *)
+Theorem C02_crash_histories_fresh :
+    forall P : params,
+    7 < BS P ->
+    BS P <= 65542 ->
+    1 <= NB P ->
+    (forall (t : byte) (p : bytes), crcf P t p < 2 ^ 32) ->
+    L_GC P = false ->
+    L_IO P = false ->
+    L_SHORT P = false ->
+    no_zero_collision P ->
+    forall (pol0 : policy) (st0 : state) (h : list chop),
+    open P [] None pol0 [] = OpenOk st0 ->
+    chist_ok P st0 h ->
+    exists (st' : state) (m' : smap),
+    crun P st0 h = Some st' /\
+    jstate P st' /\ chist_spec [] h m' /\ (forall q : bytes, s_get m' q = s_get (abs_qs (s_qs st')) q).
+Proof. exact crash_histories_fresh. Qed.
+Print Assumptions C02_crash_histories_fresh.
+
+(* usable states: any well-formed history runs without I/O error and refines the specification *)
+Theorem C02_usable_closed_under_calls :
+    forall P : params,
+    7 < BS P ->
+    BS P <= 65542 ->
+    1 <= NB P ->
+    (forall (t : byte) (p : bytes), crcf P t p < 2 ^ 32) ->
+    L_GC P = false ->
+    L_IO P = false ->
+    L_SHORT P = false ->
+    forall (st : state) (h : list hop),
+    jstate P st ->
+    hist_ok P st h ->
+    exists (st' : state) (outs : list outcome) (m' : smap) (souts : list sout),
+    hrun P st h = Some (st', outs) /\
+    jstate P st' /\
+    Forall no_io outs /\
+    s_run (abs_qs (s_qs st)) (map sop_of (hcalls h)) = (m', souts) /\
+    (forall q : bytes, s_get m' q = s_get (abs_qs (s_qs st')) q) /\
+    map out_logical outs = map Some souts.
+Proof. exact jstate_run. Qed.
+Print Assumptions C02_usable_closed_under_calls.
+
+(* usable states: a clean restart restores the abstract state and gives a usable state *)
+Theorem C02_usable_restart_identity :
+    forall P : params,
+    7 < BS P ->
+    BS P <= 65542 ->
+    1 <= NB P ->
+    (forall (t : byte) (p : bytes), crcf P t p < 2 ^ 32) ->
+    L_GC P = false ->
+    L_IO P = false ->
+    L_SHORT P = false ->
+    forall st : state,
+    jstate P st ->
+    restart_bound P st ->
+    forall (pol : policy) (hint : list bytes),
+    exists st2 : state,
+    restart P st pol hint = OpenOk st2 /\
+    jstate P st2 /\
+    s_pol st2 = pol /\
+    w_pending (s_wr st2) = [] /\
+    (forall q : bytes, s_get (abs_qs (s_qs st2)) q = s_get (abs_qs (s_qs st)) q).
+Proof. exact jstate_restart_identity. Qed.
+Print Assumptions C02_usable_restart_identity.
 
